@@ -50,18 +50,17 @@ def make_case(seed, i, tier):
         prof.update(engine="turtlemd", maxlength=2000, steps=8)
         N = 8
         if mode == "A":
-            # in scope for byte equality only with an order parameter representable at six decimals
-            prof.update(rounded_op=True, allowmaxlength=True, workers=1)
+            # half with an order parameter representable at the six decimals of the order files, half
+            # with the example's real-valued one (what a restart reads back is then a rounded value)
+            prof.update(rounded_op=rng.random() < 0.5, allowmaxlength=True, workers=1)
+            if not prof["rounded_op"] and rng.random() < 0.25:
+                prof["grid_op"] = True
     scn = SC.gen_scenario(rng, prof)
     if scn["engine"] == "turtlemd" and mode == "A" and scn.get("rounded_op") and rng.random() < 0.7:
         # the example's own move mix: many wire-fencing ensembles give large weights and therefore very
         # small probabilities / accumulated fractions
         scn["moves"] = ["sh", "sh", "wf", "wf", "wf", "wf", "wf", "wf"]
         scn["n_jumps"] = 6
-    if scn["engine"] == "turtlemd" and mode == "A" and not scn.get("rounded_op"):
-        # real-valued order parameters are stored with six decimals: straight-vs-restart byte
-        # equality is outside the stated scope; TurtleMD runs check re-issue (B) and determinism (C)
-        mode = "C"
     if mode == "B" and scn["workers"] < 2:
         mode = "A"
         scn["workers"] = 1
@@ -133,8 +132,37 @@ class RoundTripProbe(SS.Monitor):
         return {"inexact_steps": self.steps[:20]}
 
 
+class RoundingProbe(SS.Monitor):
+    """Site classification only (never a verdict): the steps after which a live path holds a frame whose
+    order parameter changes side of an interface when it is rounded to the six decimals of order.txt -
+    a restart placed there reads a path that is classified differently from the one in memory."""
+
+    def __init__(self):
+        self.steps = []
+
+    def post_treat(self, md):
+        st = self.sim.state
+        lams = [float(x) for x in st.config["simulation"]["interfaces"]]
+        cap = st.config["simulation"]["tis_set"].get("interface_cap")
+        if cap is not None:
+            lams.append(float(cap))
+        for traj in st._trajs[:-1]:
+            if getattr(traj, "path_number", None) is None:
+                continue
+            for pp in traj.phasepoints:
+                x = float(pp.order[0])
+                r = round(x, 6)
+                if x != r and any(min(x, r) <= lam <= max(x, r) for lam in lams):
+                    self.steps.append(int(st.cstep))
+                    self.sim.k.probe("order_within_rounding_of_an_interface")
+                    return
+
+    def summary(self):
+        return {"rounding_steps": self.steps[:50]}
+
+
 def _mon(case, inc):
-    return [ReissueMonitor(), RoundTripProbe()]
+    return [ReissueMonitor(), RoundTripProbe(), RoundingProbe()]
 
 
 def _strip(path):
@@ -145,7 +173,7 @@ def _strip(path):
     return cfg
 
 
-def _compare(dirA, dirB, label, case, res_violations):
+def _compare(dirA, dirB, label, case, res_violations, site=None):
     for item in ("infretis_data.txt",):
         a, b = os.path.join(dirA, item), os.path.join(dirB, item)
         if not (os.path.isfile(a) and os.path.isfile(b)) or not filecmp.cmp(a, b, shallow=False):
@@ -157,7 +185,7 @@ def _compare(dirA, dirB, label, case, res_violations):
                 f"{label}: {item} differs from line {first}: "
                 f"{la[first][:80] if first < len(la) else '<eof>'!r} vs "
                 f"{lb[first][:80] if first < len(lb) else '<eof>'!r}", None, case,
-                site="seed0" if case["scn"]["config_seed"] == 0 else "seed_nonzero"))
+                site=site or ("seed0" if case["scn"]["config_seed"] == 0 else "seed_nonzero")))
             return
     ca, cb = _strip(os.path.join(dirA, "restart.toml")), _strip(os.path.join(dirB, "restart.toml"))
     if ca != cb:
@@ -165,7 +193,7 @@ def _compare(dirA, dirB, label, case, res_violations):
         res_violations.append(C._viol("C06", "restart_file_differs",
                                       f"{label}: restart.toml differs in current.{sorted(diff)}",
                                       None, case,
-                                      site="seed0" if case["scn"]["config_seed"] == 0 else "seed_nonzero"))
+                                      site=site or ("seed0" if case["scn"]["config_seed"] == 0 else "seed_nonzero")))
 
 
 def _hist(case, plan):
@@ -205,7 +233,10 @@ def run(case):
             dirs.append(rB["rundir"])
             viol = rA["violations"] + rB["violations"]
             if not any(ev["ev"] == "died" for ev in rA["events"] + rB["events"]):
-                _compare(rA["rundir"], rB["rundir"], f"straight vs chain {cuts} (N={N})", case, viol)
+                sens = set(s_ for m in (rA.get("mon") or {}).values()
+                           for s_ in (m.get("RoundingProbe") or {}).get("rounding_steps", []))
+                site = "restart_at_order_within_rounding_of_interface" if sens & set(cuts) else None
+                _compare(rA["rundir"], rB["rundir"], f"straight vs chain {cuts} (N={N})", case, viol, site=site)
             res = rB
             res["violations"] = viol
             sig = ("A", scn["workers"], tuple(scn["moves"]), tuple(cuts), scn["config_seed"] == 0,
@@ -235,10 +266,16 @@ def run(case):
         pool = (rA["events"] + rB["events"]) if mode in ("A", "C") else res["events"]
         for ev in pool:
             if ev["ev"] == "died" and "injected worker failure" not in ev.get("msg", ""):
+                dsite = None
+                if mode == "A" and ev.get("inc", 0) > 0:
+                    sens = set(s_ for m in (rA.get("mon") or {}).values()
+                               for s_ in (m.get("RoundingProbe") or {}).get("rounding_steps", []))
+                    if sens & set(cuts):
+                        dsite = "restart_at_order_within_rounding_of_interface"
                 res["violations"].append(C._viol(
                     "C06", "restarted_run_died" if ev.get("inc", 0) > 0 else "run_died",
                     f"incarnation {ev.get('inc')} died: {ev.get('exc')}: {ev.get('msg', '')[:200]} at {ev.get('tb')}",
-                    ev.get("inc"), case))
+                    ev.get("inc"), case, **({"site": dsite} if dsite else {})))
                 break
         out = C.result_from(res, _hist(case, case["scn"].get("plan", [])),
                             lambda r, c: mode in ("A", "B"))
